@@ -25,6 +25,10 @@ def body(c):
         S.mc_sw(c, "2sessions-2streams", S.sw_consts(2, 2, (2, 3), 2, 2, 2, ("full", "incr"), 2, 2, 3), timeout=1500)
         S.mc_sw(c, "1session-3entries", S.sw_consts(2, 2, (2, 3, 5), 3, 2, 2, ("full", "incr"), 1, 1, 4), timeout=1500,
                 coverage=True)
+    # the code as it is (LevelFix=FALSE) must show the counterexample the replay looks for
+    r = S.mc_sw(c, "as-is-2sessions-L4", S.sw_consts(2, 2, (2, 3), 2, 2, 2, ("incr",), 2, 2, 4, levelfix=False),
+                timeout=600, workers=8, expect_violation=True)
+    c.cov["as_is_model_violates"] = r.violation or "nothing"
     levels = 4 if q else rnd.choice([3, 4, 7])
     gen = S.sw_consts(2, 2, (2, 3, 5, 8), 4, 3, 2, ("full", "incr"), 2, 3, levels)
     n = 400 if q else 2500
